@@ -133,6 +133,21 @@ pub fn ret_matches(actual: &Ret, expected: &Ret) -> bool {
     }
 }
 
+/// The property that specifies the postcondition of an operation kind.
+pub fn op_owner(op: Op) -> Props {
+    match op {
+        Op::Mutate { .. } => p(11),
+        Op::Retain { .. } | Op::RetainMod { .. } => p(15),
+        Op::Reserve { .. } | Op::TryReserve { .. } | Op::ShrinkTo { .. } | Op::ShrinkToFit => p(13),
+        Op::CloneSwap => p(14),
+        Op::Drain { .. } | Op::DrainForget { .. } => p(12),
+        Op::Insert { .. } | Op::InsertRaw { .. } | Op::TryInsert { .. } | Op::SetMax { .. } | Op::SetMaxRaw { .. } => p(3),
+        Op::Get { .. } | Op::GetEntry { .. } | Op::Touch { .. } | Op::GetLru => p(5),
+        Op::Peek { .. } | Op::PeekEntry { .. } | Op::Contains { .. } | Op::DebugFmt => p(19),
+        _ => 0,
+    }
+}
+
 /// Full structural snapshot of a state: dump, walk, observation, key.
 pub struct Snap {
     pub dump: lru_mem::VerifDump,
@@ -233,8 +248,11 @@ pub fn run_transition(
         Err(why) => {
             st.rule("C07.structure");
             st.pruned_corrupt += 1;
+            // an operation that leaves the structure incoherent cannot have met
+            // its own postcondition either: also owned by the map property and
+            // by the property that specifies this operation
             viol.push(v(
-                p(7) | ctx.fault_props,
+                p(7) | ctx.fault_props | p(4) | op_owner(op),
                 "C07.structure",
                 format!("after the operation the list/table structure is incoherent: {why}"),
             ));
@@ -255,7 +273,7 @@ pub fn run_transition(
         Ok(k) => k,
         Err(why) => {
             st.pruned_corrupt += 1;
-            viol.push(v(p(7) | ctx.fault_props, "C07.traversal", why));
+            viol.push(v(p(7) | ctx.fault_props | p(4) | op_owner(op), "C07.traversal", why));
             std::mem::forget(ex.cache.take());
             viol.retain(|x| x.props & ctx.sel != 0);
             return TransOut { post_key: None, viol, machinery: None };
